@@ -1395,3 +1395,189 @@ pub fn gen_c07(r: &mut Rng) -> (String, String) {
     );
     (class, term)
 }
+
+// ---------------------------------------------------------------------------
+// C08: roles — mixed walk biased towards role changes on multi-port instances
+
+pub fn gen_c08(r: &mut Rng) -> (String, Sim) {
+    let mut icfg = rand_inst_cfg(r);
+    icfg.slave_only = r.chance(1, 4);
+    let np = 1 + r.below(3) as usize;
+    let cfgs: Vec<PortCfg> = (0..np)
+        .map(|_| {
+            let mut c = rand_port_cfg(r);
+            c.master_only = r.chance(1, 4);
+            c
+        })
+        .collect();
+    let mut sim = Sim::new(icfg, cfgs);
+    let nm = 1 + r.below(3) as usize;
+    let mut w = World::new(r, &sim, nm);
+    for (k, m) in w.masters.iter_mut().enumerate() {
+        m.ann.prio1 = *r.pick(&[10u8, 128, 250]);
+        if k == 0 {
+            m.ann.steps = r.below(3) as u16;
+        }
+    }
+    let n = 15 + r.below(45);
+    for _ in 0..n {
+        let p = r.below(np as u64) as usize;
+        let ev = match r.below(20) {
+            0..=5 => {
+                // two announces in a row from one master so that it qualifies
+                let m = r.below(nm as u64) as usize;
+                let f = w.announce_frame(m, &[]);
+                if !sim.step(Ev::RecvGeneral(p, f)) {
+                    break;
+                }
+                w.observe(&sim);
+                let f = w.announce_frame(m, &[]);
+                Ev::RecvGeneral(p, f)
+            }
+            6..=9 => Ev::Bmca,
+            10 => Ev::SetSlaveOnly(r.chance(1, 2)),
+            11 => Ev::AnnounceReceiptTimer(p),
+            12 => Ev::SyncTimer(p),
+            13 => Ev::AnnounceTimer(p),
+            14 => Ev::DelayReqTimer(p),
+            _ => mix_event(r, &sim, &mut w),
+        };
+        if !sim.step(ev) {
+            break;
+        }
+        w.observe(&sim);
+    }
+    let class = format!(
+        "c08:np{}:{}:{}{}:{}",
+        np,
+        if sim.panicked { "panic" } else { "ok" },
+        if sim.icfg.slave_only { "so" } else { "" },
+        if sim.cfgs.iter().any(|c| c.master_only) { "mo" } else { "" },
+        w.visited.iter().cloned().collect::<Vec<_>>().join("")
+    );
+    (class, sim)
+}
+
+// ---------------------------------------------------------------------------
+// C15: TLV forwarding and path trace on boundary clocks
+
+pub fn gen_c15(r: &mut Rng) -> (String, Sim) {
+    let mut icfg = rand_inst_cfg(r);
+    icfg.slave_only = false;
+    icfg.quality.0 = 248;
+    icfg.prio1 = 128;
+    icfg.path_trace = r.chance(2, 3);
+    let np = 2 + r.below(2) as usize;
+    let cfgs: Vec<PortCfg> = (0..np)
+        .map(|_| {
+            let mut c = rand_port_cfg(r);
+            c.acceptable = None;
+            c.master_only = false;
+            c
+        })
+        .collect();
+    let mut sim = Sim::new(icfg, cfgs);
+    let mut w = World::new(r, &sim, 2);
+    let own = sim.icfg.clock_identity;
+    w.masters[0].ann.prio1 = 10;
+    w.masters[0].ann.steps = r.below(3) as u16;
+    w.masters[1].ann.prio1 = 200; // announces too, but never parent
+    let mut kinds = std::collections::BTreeSet::new();
+    // port 0 becomes slave of master 0, the others master
+    for _ in 0..2 {
+        let f = w.announce_frame(0, &[]);
+        sim.step(Ev::RecvGeneral(0, f));
+    }
+    for p in 1..np {
+        sim.step(Ev::AnnounceReceiptTimer(p));
+    }
+    sim.step(Ev::Bmca);
+    w.observe(&sim);
+    let path_room = |n: usize| 960usize.saturating_sub(4 + 8 * (n + 1));
+    let mut last_path_len = 0usize;
+    let n = 8 + r.below(25);
+    for _ in 0..n {
+        let ev = match r.below(12) {
+            0..=5 => {
+                // announce from the parent (mostly) or the other master with TLVs
+                let m = if r.chance(5, 6) { 0 } else { 1 };
+                let mut suffix = Vec::new();
+                if r.chance(2, 3) {
+                    // path trace TLV
+                    let plen = match r.below(8) {
+                        0 => 0,
+                        1 => 118 + r.below(4) as usize,
+                        2 => 126 + r.below(5) as usize,
+                        3 => 200,
+                        _ => r.below(6) as usize,
+                    };
+                    let mut v = Vec::new();
+                    for j in 0..plen {
+                        let id: u64 = if r.chance(1, 40) { own } else { 0x7100_0000_0000_0000 + j as u64 };
+                        v.extend_from_slice(&id.to_be_bytes());
+                    }
+                    if m == 0 {
+                        last_path_len = plen;
+                    }
+                    suffix.extend_from_slice(&tlv(8, &v));
+                    kinds.insert("path");
+                }
+                let room = if sim.icfg.path_trace { path_room(last_path_len) } else { 960 };
+                for _ in 0..r.below(4) {
+                    let ty = *r.pick(&[9u16, 0x4000, 0x4001, 0x4abc, 0x7f10, 0x7fff, 3, 0x8001, 1, 0x2004]);
+                    let len: usize = match r.below(9) {
+                        0 => 0,
+                        1 => room.saturating_sub(4),     // exactly fits
+                        2 => room.saturating_sub(2),     // two too many
+                        3 => room.saturating_sub(6),     // fits with 2 spare
+                        4 => 2 * r.below(40) as usize + 900,
+                        5 => 1100,
+                        _ => 2 * r.below(30) as usize,
+                    } & !1usize;
+                    kinds.insert(match len {
+                        0 => "empty",
+                        l if l + 4 > 960 => "oversize",
+                        l if l > 800 => "near-room",
+                        _ => "small",
+                    });
+                    suffix.extend_from_slice(&tlv(ty, &r.bytes(len)));
+                    if suffix.len() > 1900 {
+                        break;
+                    }
+                }
+                if 64 + suffix.len() > 2048 {
+                    suffix.truncate(0);
+                }
+                let f = w.announce_frame(m, &suffix);
+                Ev::RecvGeneral(0, f)
+            }
+            6..=9 => Ev::AnnounceTimer(1 + r.below(np as u64 - 1) as usize),
+            10 => Ev::Bmca,
+            _ => {
+                if r.chance(1, 2) {
+                    Ev::AnnounceTimer(0)
+                } else {
+                    // the other master takes over: parent changes
+                    w.masters[1].ann.prio1 = 5;
+                    kinds.insert("takeover");
+                    let f = w.announce_frame(1, &[]);
+                    Ev::RecvGeneral(0, f)
+                }
+            }
+        };
+        if !sim.step(ev) {
+            break;
+        }
+        w.observe(&sim);
+    }
+    let fwd = sim.results.iter().map(|x| x.matches("AForwardTLV").count()).sum::<usize>();
+    let class = format!(
+        "c15:{}:pt{}:f{}:{}:{}",
+        if sim.panicked { "panic" } else { "ok" },
+        sim.icfg.path_trace as u8,
+        fwd.min(9),
+        kinds.iter().cloned().collect::<Vec<_>>().join("+"),
+        w.visited.iter().cloned().collect::<Vec<_>>().join("")
+    );
+    (class, sim)
+}
